@@ -103,6 +103,10 @@ func (World) Generate(rng *rand.Rand, tier string, runIdx uint64) simkit.Plan {
 	p.ID = fmt.Sprintf("%d-%d-%d", p.Term, p.Index, rng.IntN(1<<30))
 	p.Stride = 1
 	p.SumsOrder = rng.IntN(2)
+	if simkit.Chance(rng, 12) {
+		// a large cluster: the metadata member is several KiB, not a few hundred bytes
+		p.Servers = 40 + rng.IntN(120)
+	}
 	return p
 }
 
@@ -145,10 +149,17 @@ func meta(p *Plan) *raft.SnapshotMeta {
 		ConfigurationIndex: p.Index / 2, Size: int64(p.PayloadSize)}
 	for i := 0; i < p.Servers; i++ {
 		m.Configuration.Servers = append(m.Configuration.Servers, raft.Server{
-			Suffrage: raft.ServerSuffrage(i % 2), ID: raft.ServerID(fmt.Sprintf("srv-%d", i)),
+			Suffrage: raft.ServerSuffrage(i % 2), ID: raft.ServerID(serverID(p, i)),
 			Address: raft.ServerAddress(fmt.Sprintf("10.0.0.%d:8300", i+1))})
 	}
 	return m
+}
+
+func serverID(p *Plan, i int) string {
+	if p.Servers > 8 {
+		return fmt.Sprintf("%08x-1111-4222-8333-%012x", i, i*7919) // node ids are UUIDs
+	}
+	return fmt.Sprintf("srv-%d", i)
 }
 
 // region of a byte position in the clean tar, by our own walk
